@@ -217,4 +217,32 @@ theorem readLoop_rest : ∀ (bs : Bytes) (acc cnt n : Nat) (rest : Bytes),
       simp only [hb, if_false]
       rw [this, Nat.add_comm]; rfl
 
+/-! ### DMAP: when every declared length stays inside its parent, a frame costs 4 declared bytes -/
+
+theorem dmapFrames_le (lk : Bytes → C04.Dmap.Kind) (utf8 : Bytes → Bool) :
+    ∀ (fuel : Nat) (avail : Bytes) (n : Nat), dmapDeclOk lk fuel avail n = true →
+      4 * dmapFrames lk utf8 fuel avail n ≤ n + 4 := by
+  intro fuel
+  induction fuel with
+  | zero => intro avail n _; simp [dmapFrames]
+  | succ fuel ih =>
+    intro avail n hok
+    simp only [dmapFrames]
+    simp only [dmapDeclOk] at hok
+    split
+    · omega
+    · rename_i hn
+      rw [if_neg hn] at hok
+      simp only [Bool.and_eq_true, decide_eq_true_eq] at hok
+      obtain ⟨⟨hlen, hch⟩, hrest⟩ := hok
+      have h2 := ih _ _ hrest
+      split
+      · split
+        · rename_i hk
+          rw [hk] at hch
+          have h1 := ih _ _ hch
+          split <;> omega
+        · split <;> omega
+      · omega
+
 end PyatvModel.C05
